@@ -15,6 +15,8 @@ Chars(n) == CASE n = "A" -> <<"A">>
               [] n = "ID" -> <<"I","D">>
               [] n = "URL" -> <<"U","R","L">>
               [] n = "HTTP2" -> <<"H","T","T","P","2">>
+              \* a non-ASCII capital first (token <A> = A with diaeresis): serde's camelCase lowers an ASCII first letter only
+              [] n = "<A>nderung" -> <<"<A>","n","d","e","r","u","n","g">>
               [] n = "UserId" -> <<"U","s","e","r","I","d">>
               \* identifiers whose case-converted form is a reserved or special word of a target language (Swift init / self /
               \* default / none, Python None / class / in, Kotlin in / class): escaping the DECLARED name must not change the wire string
